@@ -115,6 +115,14 @@ const char *vf_lock_name(const void *addr) {
 	static __thread char buf[32];
 	for (int i = 0; i < nnames; i++)
 		if (names[i].addr == addr) return names[i].name;
+	/* a lock the harness has no symbol for (file-static mutexes of the library): numbered in order of first use,
+	 * so that its name does not depend on the load address */
+	if (nnames < MAXL) {
+		static int nunnamed = 0;
+		names[nnames].addr = addr;
+		snprintf(names[nnames].name, sizeof names[0].name, "unnamed_static_lock_%d", ++nunnamed);
+		return names[nnames++].name;
+	}
 	snprintf(buf, sizeof buf, "lock@%p", addr);
 	return buf;
 }
